@@ -155,6 +155,59 @@ def utf8(s):
     return list(s.encode('utf-8'))
 
 
+_SCHEMA_CACHE = {}
+
+
+def load_schema(path_parts, pointer=()):
+    """A node of a published JSON schema of the repository (with local $ref files resolved)."""
+    import json
+    import os
+    import bridge_env
+    base = os.path.join(os.path.dirname(bridge_env.__file__), *path_parts[:-1])
+    key = (tuple(path_parts), tuple(pointer))
+    if key in _SCHEMA_CACHE:
+        return _SCHEMA_CACHE[key]
+
+    def resolve(node, cur_file):
+        if isinstance(node, dict):
+            if '$ref' in node:
+                ref = node['$ref']
+                fname, _, ptr = ref.partition('#')
+                target_file = os.path.join(base, fname) if fname else cur_file
+                doc = json.load(open(target_file))
+                tgt = doc
+                for part in [x for x in ptr.split('/') if x]:
+                    tgt = tgt[part]
+                return resolve(tgt, target_file)
+            return {k: resolve(v, cur_file) for k, v in node.items()}
+        if isinstance(node, list):
+            return [resolve(v, cur_file) for v in node]
+        return node
+    f = os.path.join(base, path_parts[-1])
+    node = json.load(open(f))
+    for part in pointer:
+        node = node[part]
+    node = resolve(node, f)
+    _SCHEMA_CACHE[key] = node
+    return node
+
+
+def json_conforms(value, schema):
+    """Does the JSON value conform to the (resolved) schema node?"""
+    import jsonschema
+    try:
+        jsonschema.validate(value, schema)
+        return True
+    except jsonschema.ValidationError:
+        return False
+
+
+def json_text(v):
+    """The one-line JSON text of v (json.dumps(v, indent=None))."""
+    import json
+    return json.dumps(v, indent=None)
+
+
 def bytes_seq(b):
     """A bytes value as a list of ints."""
     return list(b)
